@@ -1396,7 +1396,7 @@ impl std::ops::Deref for SecurityPluginsHandle {
 // and direct registration of remote crypto handles (normally the result of the authentication
 // handshake and key exchange), so that an in-crate driver can exercise the MessageReceiver gating
 // with a scripted Cryptographic plugin.
-#[cfg(rustdds_verif)]
+#[cfg(all(rustdds_verif, any(not(rustdds_verif_only), rustdds_verif_c17)))]
 impl SecurityPlugins {
   pub(crate) fn verif_not_protected(&self) -> (Vec<GuidPrefix>, Vec<GUID>, Vec<GUID>) {
     (
